@@ -56,8 +56,11 @@ func genLost(r *rng, index int) *Spec {
 		}
 	}
 	// outcome of the read-only attempt on the master
-	ro := []string{"ok", "ok", "deadline", "error", "ok"}[r.intn(5)]
+	ro := []string{"ok", "ok", "deadline", "error", "ok", "blocked_by_sessions", "blocked_by_sessions"}[r.intn(7)]
 	switch ro {
+	case "blocked_by_sessions":
+		// application sessions hold locks: read-only times out (1205) until they are killed
+		sp.Timeline = append(sp.Timeline, TLEvent{AtMs: T - 300, Kind: "lock_session", Host: master, N: int64(r.rangeInt(1, 3))})
 	case "deadline":
 		sp.StmtFail = append(sp.StmtFail, StmtFail{Host: master, Prefix: "SET GLOBAL super_read_only", Errno: 0, FromMs: T, ToMs: T + int64(r.pickInt(8000, 40000))})
 	case "error":
